@@ -208,8 +208,10 @@ def behaviours(chk, tier, seed, maxrefs=0, labkinds='"none", "own", "index", "se
     cfg = CFG if refkinds is None else CFG.replace('RefKinds = {"sec"}', 'RefKinds = {%s}' % refkinds)
     noemit = cfg.replace('INVARIANT Emit\n', '')
     big, small = (3, 2) if tier == 'quick' else (4, 3)
-    res = tlc.run('Split', cfg_text=noemit % (big, alltm, maxrefs, labkinds), timeout=3400, heap='12g', want_beh=False)
-    chk.add_tlc(res, 'split(MaxNodes=%d,refs<=%d)' % (big, maxrefs))
+    # four units with all four label kinds are ~100M states: the largest bound runs with two label kinds
+    biglab = labkinds if big <= 3 else '"none", "own"'
+    res = tlc.run('Split', cfg_text=noemit % (big, alltm, maxrefs, biglab), timeout=3400, heap='12g', want_beh=False)
+    chk.add_tlc(res, 'split(MaxNodes=%d,refs<=%d,labels=%s)' % (big, maxrefs, biglab.replace('"', '')))
     if not res.ok:
         chk.violation('design:' + ','.join(res.violated or ['error']),
                       'TLC found a counterexample in the Split design: %s\n%s' % (res.violated, res.trace_text[:2500]))
